@@ -955,6 +955,372 @@ theorem obsSpec_of_hinv (s : Conn) (h : HInv s) : obsSpec (obsOf s) = true := by
     refine ⟨_, List.mem_map.mpr ⟨e.2, List.mem_range.mpr h1, rfl⟩, ?_⟩
     simp [h2, h3]
 
+/-! ### a frame touches only the stream objects registered under its id (unless it closes the connection) -/
+/-- stream objects whose id is not `id` keep their deliveries and reset notifications -/
+def Untouched (id : Int) (s s' : Conn) : Prop :=
+  Same false s s' ∧ s'.closed = s.closed ∧
+  ∀ w, (s.str w).id ≠ id → (s'.str w).got = (s.str w).got ∧ (s'.str w).resets = (s.str w).resets
+
+theorem Untouched.refl (id : Int) (s : Conn) : Untouched id s s := ⟨Same.refl _ s, rfl, fun _ _ => ⟨rfl, rfl⟩⟩
+theorem Untouched.trans {id : Int} {a b c : Conn} (h1 : Untouched id a b) (h2 : Untouched id b c) : Untouched id a c := by
+  refine ⟨h1.1.trans h2.1, h2.2.1.trans h1.2.1, fun w hw => ?_⟩
+  have e := (h1.1.2.2.1 w).1
+  have x := h1.2.2 w hw
+  have y := h2.2.2 w (by rw [e]; exact hw)
+  exact ⟨y.1.trans x.1, y.2.trans x.2⟩
+
+theorem untouched_of_str (id : Int) (s s' : Conn) (hn : s'.next = s.next) (hw : s'.nW = s.nW) (hs : s'.str = s.str)
+    (hc : s'.closed = s.closed)
+    (hm : ∀ k w, lookup s'.mod k = some w → lookup s.mod k = some w := by
+      first | exact fun _ _ h => h | exact fun _ _ h => lookup_erase_sub _ _ _ _ h) : Untouched id s s' :=
+  ⟨same_of_str false s s' hn hw hs hm, hc, fun w _ => by rw [hs]; exact ⟨rfl, rfl⟩⟩
+
+/-- an update of stream object `w` that keeps id / hasCs, and keeps got / resets unless `w` is registered under `id` -/
+theorem untouched_updW (id : Int) (s : Conn) (w : Nat) (f : Str → Str)
+    (hf : ∀ x, (f x).id = x.id ∧ (f x).hasCs = x.hasCs) (hg : (s.str w).id = id ∨ ((f (s.str w)).got = (s.str w).got ∧ (f (s.str w)).resets = (s.str w).resets)) :
+    Untouched id s (s.updW w f) := by
+  refine ⟨same_updW false s w f (fun x => ⟨(hf x).1, (hf x).2, fun h => by simp at h⟩), rfl, fun k hk => ?_⟩
+  simp only [updW_str]
+  split
+  · rename_i e; subst e
+    rcases hg with hg | hg
+    · exact absurd hg hk
+    · exact hg
+  · exact ⟨rfl, rfl⟩
+
+theorem untouched_streamByID (id : Int) (s : Conn) (k : Int) (r : Bool) : Untouched id s (streamByID G s k r).2 := by
+  rw [(streamByID_good s k r).2]; split
+  · exact untouched_of_str id s _ rfl rfl rfl rfl
+  · exact Untouched.refl id s
+
+theorem untouched_modReset (id : Int) (s : Conn) (k : Int) : Untouched id s (modReset G s k) := by
+  have h := modReset_good s k
+  exact untouched_of_str id s _ h.2.2.2.2.2.1 h.2.1 h.2.2.1 h.2.2.2.2.1
+    (fun a w hl => by rw [h.2.2.2.2.2.2.2] at hl; exact lookup_erase_sub _ _ _ _ hl)
+
+theorem untouched_resetStream (id : Int) (s : Conn) (w : Nat) (r : Reason) (hw : (s.str w).id = id) :
+    Untouched id s (resetStream G s w r) := by
+  unfold resetStream
+  simp only []
+  have hA : Untouched id s (if ((s.str w).hasCs || !G.ownResetNeedsCs) = true then
+        (streamByID G (modReset G s (s.str w).id) (G.modOwnResetKey (s.str w).id) (G.modOwnResetRemove false)).2 else s) := by
+    split
+    · exact (untouched_modReset id s _).trans (untouched_streamByID id _ _ _)
+    · exact Untouched.refl id s
+  generalize (if ((s.str w).hasCs || !G.ownResetNeedsCs) = true then
+        (streamByID G (modReset G s (s.str w).id) (G.modOwnResetKey (s.str w).id) (G.modOwnResetRemove false)).2 else s) = sA at hA
+  have hB : Untouched id s (if G.resetDeletes (s.str w).connReset = true then { sA with tbl := erase sA.tbl (G.resetDeleteKey (s.str w).id) } else sA) := by
+    split
+    · exact hA.trans (untouched_of_str id _ _ rfl rfl rfl rfl)
+    · exact hA
+  generalize (if G.resetDeletes (s.str w).connReset = true then { sA with tbl := erase sA.tbl (G.resetDeleteKey (s.str w).id) } else sA) = sB at hB
+  refine hB.trans ?_
+  unfold baseReset
+  split
+  · exact untouched_updW id sB w _ (fun x => ⟨rfl, rfl⟩) (Or.inl (by rw [(hB.1.2.2.1 w).1]; exact hw))
+  · exact Untouched.refl id sB
+
+theorem untouched_streamError (s : Conn) (h : HInv s) (id : Int) : Untouched id s (streamError G s id) := by
+  unfold streamError
+  have e : G.errLookupKey id = id := rfl
+  rw [e]
+  cases hl : lookup s.tbl id with
+  | none => exact Untouched.refl id s
+  | some w => exact untouched_resetStream id s w _ (h.tentry id w hl).2.1
+
+theorem untouched_finish (s : Conn) (id : Int) (w : Nat) (hw : (s.str w).id = id) : Untouched id s (finish G s w id) := by
+  unfold finish
+  simp only []
+  split
+  · exact (untouched_updW id s w (fun x => { x with live := false, got := x.got ++ [⟨(s.str w).header, (s.str w).body, (s.str w).trailer⟩] })
+      (fun x => ⟨rfl, rfl⟩) (Or.inl hw)).trans (untouched_of_str id _ _ rfl rfl rfl rfl)
+  · exact untouched_of_str id _ _ rfl rfl rfl rfl
+
+theorem resetAll_closed (l : List (Int × Nat)) (s : Conn) (r : Reason) : (resetAll G s r l).closed = s.closed := by
+  induction l generalizing s with
+  | nil => rfl
+  | cons e l ih =>
+    obtain ⟨k, w⟩ := e
+    simp only [resetAll]
+    rw [ih]
+    exact ((untouched_resetStream _ (s.updW w fun x => { x with connReset := true }) w r rfl).2.1)
+
+theorem connClose_closed (s : Conn) : (connClose G s).closed = true := by
+  unfold connClose; rw [resetAll_closed]
+
+/-- **a frame touches only its own id**: a HEADERS / DATA / trailers / RST_STREAM frame with stream id `id` that does not
+close the connection changes the deliveries and reset notifications of no stream object registered under another id -/
+theorem frame_touches_only_its_id (s : Conn) (h : HInv s) (id : Int) (op : Op) (hop : op.frameOn id)
+    (hc : (step G s op).closed = false) : Untouched id s (step G s op) := by
+  unfold step at hc ⊢
+  split
+  · exact Untouched.refl id s
+  · rename_i hcl
+    simp only [hcl, Bool.false_eq_true, if_false] at hc
+    have ccl : ∀ t : Conn, (connClose G t).closed = false → False := fun t ht => by rw [connClose_closed] at ht; simp at ht
+    cases op with
+    | headers i tok ended =>
+      simp only [Op.frameOn] at hop; subst hop
+      simp only [onHeaders] at hc ⊢
+      split
+      · rename_i h0; simp only [h0, if_true] at hc; exact (ccl _ hc).elim
+      · rename_i h0
+        simp only [h0, if_false] at hc
+        have e1 : G.modHeadersKey i = i := rfl
+        have e3 : G.frameLookupKey i = i := rfl
+        have e4 : G.hdrEndDeleteKey i = i := rfl
+        rw [e1, e3, e4] at hc ⊢
+        rcases sb_cases s i (G.modHeadersRemove ended) with ⟨_, hsb⟩ | ⟨mw, hl, hsb⟩
+        · rw [hsb]; exact Untouched.refl _ s
+        · rw [hsb] at hc ⊢
+          simp only [] at hc ⊢
+          have ff := found_facts s h i mw hl (G.modHeadersRemove ended)
+          have h1 : Untouched i s (if G.modHeadersRemove ended = true then { s with mod := erase s.mod i } else s) := by
+            split
+            · exact untouched_of_str _ _ _ rfl rfl rfl rfl
+            · exact Untouched.refl _ s
+          generalize (if G.modHeadersRemove ended = true then { s with mod := erase s.mod i } else s) = s1 at ff h1 hc ⊢
+          obtain ⟨hi, ht, hs, htb, hn, hlive, hre, hrk, hoth⟩ := ff
+          have hmid : (s1.str mw).id = i := by rw [hs]; exact (h.tentry i mw (h.mentry i mw hl).1).2.1
+          refine h1.trans ?_
+          split
+          · rw [updW_tbl, ht]
+            simp only []
+            have h2 := untouched_updW i s1 mw (fun x => { x with pastHeaders := true }) (fun x => ⟨rfl, rfl⟩) (Or.inl hmid)
+            refine h2.trans ?_
+            have hmid2 : ((s1.updW mw fun x => { x with pastHeaders := true }).str mw).id = i := by simp [hmid]
+            split
+            · split
+              · exact (untouched_updW i _ mw (fun x => { x with live := false, got := x.got ++ [⟨some ⟨i, tok⟩, [], none⟩] })
+                  (fun x => ⟨rfl, rfl⟩) (Or.inl hmid2)).trans (untouched_of_str i _ _ rfl rfl rfl rfl)
+              · exact Untouched.refl _ _
+            · exact untouched_updW i _ mw (fun x => { x with header := some ⟨i, tok⟩, trailer := none }) (fun x => ⟨rfl, rfl⟩) (Or.inl hmid2)
+          · rename_i hp
+            simp only [hp, Bool.false_eq_true, if_false] at hc
+            exact (ccl _ hc).elim
+    | data i tok ended empty =>
+      simp only [Op.frameOn] at hop; subst hop
+      simp only [onData] at hc ⊢
+      split
+      · rename_i h0; simp only [h0, if_true] at hc; exact (ccl _ hc).elim
+      · rename_i h0
+        simp only [h0, if_false] at hc
+        have e1 : G.modDataKey i = i := rfl
+        have e3 : G.frameLookupKey i = i := rfl
+        rw [e1, e3] at hc ⊢
+        rcases sb_cases s i (G.modDataRemove ended) with ⟨_, hsb⟩ | ⟨mw, hl, hsb⟩
+        · rw [hsb] at hc ⊢
+          simp only [] at hc ⊢
+          split
+          · rename_i hu; simp only [hu, if_true] at hc; exact (ccl _ hc).elim
+          · exact (untouched_modReset i s i).trans (untouched_streamError _ (hinv_modReset s h i) i)
+        · rw [hsb] at hc ⊢
+          simp only [] at hc ⊢
+          have ff := found_facts s h i mw hl (G.modDataRemove ended)
+          have h1 : Untouched i s (if G.modDataRemove ended = true then { s with mod := erase s.mod i } else s) := by
+            split
+            · exact untouched_of_str _ _ _ rfl rfl rfl rfl
+            · exact Untouched.refl _ s
+          generalize (if G.modDataRemove ended = true then { s with mod := erase s.mod i } else s) = s1 at ff h1 hc ⊢
+          obtain ⟨hi, ht, hs, htb, hn, hlive, hre, hrk, hoth⟩ := ff
+          have hmid : (s1.str mw).id = i := by rw [hs]; exact (h.tentry i mw (h.mentry i mw hl).1).2.1
+          refine h1.trans ?_
+          split
+          · exact (untouched_modReset i s1 i).trans (untouched_streamError _ (hinv_modReset s1 hi i) i)
+          · rw [ht]
+            simp only []
+            have h2 := untouched_updW i s1 mw (fun x => { x with body := x.body ++ if empty = true then [] else [⟨i, tok⟩] })
+              (fun x => ⟨rfl, rfl⟩) (Or.inl hmid)
+            split
+            · exact h2.trans (untouched_finish _ i mw (by simp [hmid]))
+            · exact h2
+    | trailers i tok =>
+      simp only [Op.frameOn] at hop; subst hop
+      simp only [onTrailers] at hc ⊢
+      split
+      · rename_i h0; simp only [h0, if_true] at hc; exact (ccl _ hc).elim
+      · rename_i h0
+        simp only [h0, if_false] at hc
+        have e1 : G.modHeadersKey i = i := rfl
+        have e3 : G.frameLookupKey i = i := rfl
+        rw [e1, e3] at hc ⊢
+        rcases sb_cases s i (G.modHeadersRemove true) with ⟨_, hsb⟩ | ⟨mw, hl, hsb⟩
+        · rw [hsb]; exact Untouched.refl _ s
+        · rw [hsb] at hc ⊢
+          simp only [] at hc ⊢
+          have ff := found_facts s h i mw hl (G.modHeadersRemove true)
+          have h1 : Untouched i s (if G.modHeadersRemove true = true then { s with mod := erase s.mod i } else s) := by
+            split
+            · exact untouched_of_str _ _ _ rfl rfl rfl rfl
+            · exact Untouched.refl _ s
+          generalize (if G.modHeadersRemove true = true then { s with mod := erase s.mod i } else s) = s1 at ff h1 hc ⊢
+          obtain ⟨hi, ht, hs, htb, hn, hlive, hre, hrk, hoth⟩ := ff
+          have hmid : (s1.str mw).id = i := by rw [hs]; exact (h.tentry i mw (h.mentry i mw hl).1).2.1
+          refine h1.trans ?_
+          split
+          · rename_i hp; simp only [hp, if_true] at hc; exact (ccl _ hc).elim
+          · rename_i hp
+            simp only [hp, Bool.false_eq_true, if_false] at hc
+            split
+            · rename_i hq; simp only [hq, if_true] at hc; exact (ccl _ hc).elim
+            · rw [updW_tbl, ht]
+              simp only []
+              have h2 := untouched_updW i s1 mw (fun x => { x with pastTrailers := true }) (fun x => ⟨rfl, rfl⟩) (Or.inl hmid)
+              have h3 := untouched_updW i (s1.updW mw fun x => { x with pastTrailers := true }) mw
+                (fun x => { x with trailer := some ⟨i, tok⟩ }) (fun x => ⟨rfl, rfl⟩) (Or.inl (by simp [hmid]))
+              exact (h2.trans h3).trans (untouched_finish _ i mw (by simp [hmid]))
+    | rst i =>
+      simp only [Op.frameOn] at hop; subst hop
+      simp only [onRst] at hc ⊢
+      split
+      · rename_i h0; simp only [h0, if_true] at hc; exact (ccl _ hc).elim
+      · exact ((untouched_streamByID i s _ _).trans (untouched_modReset i _ i)).trans
+          (untouched_streamError _ (hinv_modReset _ (hinv_streamByID s h _ _) i) i)
+    | open_ o => simp [Op.frameOn] at hop
+    | window i => simp [Op.frameOn] at hop
+    | goaway l c => simp [Op.frameOn] at hop
+    | reset w => simp [Op.frameOn] at hop
+    | connReset => simp [Op.frameOn] at hop
+    | connError => simp [Op.frameOn] at hop
+    | noise => simp [Op.frameOn] at hop
+
+/-- `ResetStream` of stream object `w` changes no other stream object -/
+theorem resetStream_others (s : Conn) (w : Nat) (r : Reason) (k : Nat) (hk : k ≠ w) : (resetStream G s w r).str k = s.str k := by
+  unfold resetStream
+  simp only []
+  have hA : (if ((s.str w).hasCs || !G.ownResetNeedsCs) = true then
+        (streamByID G (modReset G s (s.str w).id) (G.modOwnResetKey (s.str w).id) (G.modOwnResetRemove false)).2 else s).str = s.str := by
+    split
+    · rw [(streamByID_good _ _ _).2]; split <;> exact (modReset_good s _).2.2.1
+    · rfl
+  generalize (if ((s.str w).hasCs || !G.ownResetNeedsCs) = true then
+        (streamByID G (modReset G s (s.str w).id) (G.modOwnResetKey (s.str w).id) (G.modOwnResetRemove false)).2 else s) = sA at hA
+  have hB : (if G.resetDeletes (s.str w).connReset = true then { sA with tbl := erase sA.tbl (G.resetDeleteKey (s.str w).id) } else sA).str = s.str := by
+    split <;> exact hA
+  generalize (if G.resetDeletes (s.str w).connReset = true then { sA with tbl := erase sA.tbl (G.resetDeleteKey (s.str w).id) } else sA) = sB at hB
+  unfold baseReset
+  split
+  · simp only [updW_str, hk, if_false, hB]
+  · rw [hB]
+
+theorem open_nW (s : Conn) (o : Bool) : s.nW ≤ (openStream G s o).nW := by
+  unfold openStream
+  simp only []
+  split
+  · simp
+  · rw [(same_resetStream false _ _ _).2.1]; simp
+
+theorem open_others (s : Conn) (o : Bool) (k : Nat) (hk : k < s.nW) : (openStream G s o).str k = s.str k := by
+  unfold openStream
+  simp only []
+  have hne : k ≠ s.nW := Nat.ne_of_lt hk
+  split
+  · simp [hne]
+  · rw [resetStream_others _ _ _ _ hne]; simp [hne]
+
+/-! ### the step predicates hold between consecutive model states -/
+open MosnVerif.Model.H2ClientTableSpec in
+theorem strsKeep_of (p : Nat → OStr → OStr → Bool) (s s' : Conn) (hn : s.nW ≤ s'.nW)
+    (h : ∀ w, w < s.nW → p w ((obsOf s).strs[w]?.getD ⟨0, 0, [], 0⟩) ((obsOf s').strs[w]?.getD ⟨0, 0, [], 0⟩) = true) :
+    strsKeep p (obsOf s) (obsOf s') = true := by
+  unfold strsKeep
+  rw [List.all_eq_true]
+  intro i hi
+  have hlen : (obsOf s).strs.length = s.nW := by simp [obsOf]
+  have hlen' : (obsOf s').strs.length = s'.nW := by simp [obsOf]
+  rw [List.mem_range, hlen] at hi
+  have h1 : i < (obsOf s).strs.length := by rw [hlen]; exact hi
+  have h2 : i < (obsOf s').strs.length := by rw [hlen']; omega
+  have := h i hi
+  rw [List.getElem?_eq_getElem h1, List.getElem?_eq_getElem h2] at this ⊢
+  simpa using this
+
+open MosnVerif.Model.H2ClientTableSpec in
+theorem obs_str (s : Conn) (w : Nat) (hw : w < s.nW) :
+    (obsOf s).strs[w]?.getD ⟨0, 0, [], 0⟩ = OStr.mk (s.str w).id (s.str w).id
+      ((s.str w).got.map (fun d => ODel.mk (d.hdr.map partLabel) (d.body.map partLabel) (d.trailer.map partLabel)))
+      (s.str w).resets.length := by
+  simp [obsOf, hw]
+
+open MosnVerif.Model.H2ClientTableSpec in
+theorem frameStepSpec_of (s : Conn) (h : HInv s) (id : Int) (op : Op) (hop : op.frameOn id)
+    (hc : (step G s op).closed = false) : frameStepSpec id (obsOf s) (obsOf (step G s op)) = true := by
+  have u := frame_touches_only_its_id s h id op hop hc
+  apply strsKeep_of _ s _ (by rw [u.1.2.1]; exact Nat.le_refl _)
+  intro w hw
+  rw [obs_str s w hw, obs_str _ w (by rw [u.1.2.1]; exact hw)]
+  by_cases e : (s.str w).id = id
+  · simp [e]
+  · have := u.2.2 w e
+    simp [sameOutcome, this.1, this.2]
+
+open MosnVerif.Model.H2ClientTableSpec in
+/-- GOAWAY, WINDOW_UPDATE, SETTINGS, a new request -/
+theorem quietStepSpec_of (s : Conn) (op : Op)
+    (hop : (∃ l c, op = .goaway l c) ∨ (∃ i, op = .window i) ∨ op = .noise ∨ (∃ o, op = .open_ o)) :
+    quietStepSpec (obsOf s) (obsOf (step G s op)) = true := by
+  have key : s.nW ≤ (step G s op).nW ∧ ∀ w, w < s.nW → (step G s op).str w = s.str w := by
+    unfold step
+    split
+    · exact ⟨Nat.le_refl _, fun _ _ => rfl⟩
+    · rcases hop with ⟨l, c, rfl⟩ | ⟨i, rfl⟩ | rfl | ⟨o, rfl⟩
+      · simp only [onGoAway]; split <;> exact ⟨Nat.le_refl _, fun _ _ => rfl⟩
+      · simp only []
+        rw [(streamByID_good s _ _).2]; split <;> exact ⟨Nat.le_refl _, fun _ _ => rfl⟩
+      · exact ⟨Nat.le_refl _, fun _ _ => rfl⟩
+      · exact ⟨open_nW s o, fun w hw => open_others s o w hw⟩
+  apply strsKeep_of _ s _ key.1
+  intro w hw
+  rw [obs_str s w hw, obs_str _ w (by omega), key.2 w hw]
+  simp [sameOutcome]
+
+open MosnVerif.Model.H2ClientTableSpec in
+/-- ResetStream of one stream object; connection reset / connection error -/
+theorem resetStepSpec_of (s : Conn) :
+    (∀ w, resetStepSpec (some w) (obsOf s) (obsOf (step G s (.reset w))) = true) ∧
+    resetStepSpec none (obsOf s) (obsOf (step G s .connReset)) = true ∧
+    resetStepSpec none (obsOf s) (obsOf (step G s .connError)) = true := by
+  refine ⟨fun w => ?_, ?_, ?_⟩
+  · have key : (step G s (.reset w)).nW = s.nW ∧ ∀ k, k ≠ w → (step G s (.reset w)).str k = s.str k := by
+      unfold step
+      split
+      · exact ⟨rfl, fun _ _ => rfl⟩
+      · simp only []
+        split
+        · exact ⟨(same_resetStream false s w _).2.1, fun k hk => resetStream_others s w _ k hk⟩
+        · exact ⟨rfl, fun _ _ => rfl⟩
+    have hg : ∀ k, ((step G s (.reset w)).str k).got = (s.str k).got := by
+      intro k
+      unfold step
+      split
+      · rfl
+      · simp only []
+        split
+        · exact ((same_resetStream true s w _).2.2.1 k).2.2 rfl
+        · rfl
+    apply strsKeep_of _ s _ (by rw [key.1]; exact Nat.le_refl _)
+    intro k hk
+    rw [obs_str s k hk, obs_str _ k (by rw [key.1]; exact hk)]
+    by_cases e : k = w
+    · subst e; simp [hg k]
+    · rw [key.2 k e]; simp
+  · have hs : Same true s (step G s .connReset) := by
+      unfold step; split
+      · exact Same.refl _ s
+      · exact same_resetAll true _ s _
+    apply strsKeep_of _ s _ (by rw [hs.2.1]; exact Nat.le_refl _)
+    intro k hk
+    rw [obs_str s k hk, obs_str _ k (by rw [hs.2.1]; exact hk)]
+    simp [(hs.2.2.1 k).2.2 rfl]
+  · have hs : Same true s (step G s .connError) := by
+      unfold step; split
+      · exact Same.refl _ s
+      · exact same_connClose true s
+    apply strsKeep_of _ s _ (by rw [hs.2.1]; exact Nat.le_refl _)
+    intro k hk
+    rw [obs_str s k hk, obs_str _ k (by rw [hs.2.1]; exact hk)]
+    simp [(hs.2.2.1 k).2.2 rfl]
+
 open MosnVerif.Model.H2ClientTableSpec in
 /-- ids of the streams whose request went out: in range, odd for an odd start, pairwise distinct below 2^31 stream objects -/
 theorem obsSpecIds_of_idinv (s : Conn) (first : Int) (h : IdInv s first) (hn : s.nW ≤ 2147483648) :
